@@ -41,14 +41,15 @@ Lemma sec3_ok_all : below 100 sec3_ok = true.
 Proof. vm_compute. reflexivity. Qed.
 
 (* v2 year: yy -> 19yy for 80..99, 20yy otherwise *)
-Definition year2_ok (y : nat) : bool :=
-  let txt := strip (String " " (two (y mod 100))) in
+Definition year2_txt_ok (y : nat) (txt : string) : bool :=
   match parse_int txt with
   | Some yy =>
       let century := if ((80 <=? yy) && (yy <=? 99))%Z then "19" else "20" in
       match parse_int (century ++ zfill 2 txt) with Some z => Z.eqb z (Z.of_nat y) | None => false end
   | None => false
   end.
+Definition year2_ok (y : nat) : bool :=
+  year2_txt_ok y (strip (String " " (two (y mod 100)))) && year2_txt_ok y (strip (String " " (pad2 (y mod 100)))).
 Lemma year2_ok_all : forallb year2_ok (seq 1980 100) = true.
 Proof. vm_compute. reflexivity. Qed.
 
@@ -292,8 +293,8 @@ Lemma record_rt_v3 r sys2 :
   nrec_wf V3 true r = true -> skipped r = false ->
   parse_record V3 spec_q sys2 (layout V3) (render_record V3 r) = RRec (prec_of V3 sys2 r).
 Proof.
-  destruct r as [sys prn y mo d h mi s10 nums extra].
-  unfold nrec_wf, skipped. cbn [r_sys r_prn r_year r_month r_day r_hour r_min r_sec10 r_nums r_extra is_v3].
+  destruct r as [sys prn y mo d h mi s10 nums extra yb].
+  unfold nrec_wf, skipped. cbn [r_sys r_prn r_year r_month r_day r_hour r_min r_sec10 r_nums r_extra r_yblank is_v3].
   intros Hwf Hsk. rewrite Hsk in Hwf. split_all.
   assert (Hextra : extra = 7) by (apply Nat.eqb_eq; assumption). subst extra.
   assert (Hlen : length nums = 29) by (apply Nat.eqb_eq; assumption).
@@ -306,11 +307,11 @@ Proof.
   match goal with H : forallb _ _ = true |- _ => cbn [forallb] in H; fold (field_wf true) in H end.
   split_all.
   unfold parse_record, render_record.
-  cbn [r_sys r_prn r_year r_month r_day r_hour r_min r_sec10 r_nums r_extra is_v3 lead firstn skipn cont_lines].
+  cbn [r_sys r_prn r_year r_month r_day r_hour r_min r_sec10 r_nums r_extra r_yblank is_v3 lead firstn skipn cont_lines].
   change (tlookup 1 (layout V3)) with (Some (epoch_defs V3 ++ layout_fields clock_names 23 false)%list).
   cbv beta iota. rewrite map_cut_rstrip.
   set (E := epoch_text V3 (mkN (String c "") prn y mo d h mi s10
-     [o; o0; o1; o2; o3; o4; o5; o6; o7; o8; o9; o10; o11; o12; o13; o14; o15; o16; o17; o18; o19; o20; o21; o22; o23; o24; o25; o26; o27] 7)).
+     [o; o0; o1; o2; o3; o4; o5; o6; o7; o8; o9; o10; o11; o12; o13; o14; o15; o16; o17; o18; o19; o20; o21; o22; o23; o24; o25; o26; o27] 7 yb)).
   assert (F0 : field_wf true o = true) by assumption.
   assert (F1 : field_wf true o0 = true) by assumption.
   assert (F2 : field_wf true o1 = true) by assumption.
@@ -380,13 +381,13 @@ Proof.
   rewrite A1, A2. reflexivity.
 Qed.
 
-Lemma record_rt_v2 r c2 :
-  nrec_wf V2 true r = true -> skipped r = false ->
+Lemma record_rt_v2_z r c2 :
+  r_yblank r = false -> nrec_wf V2 true r = true -> skipped r = false ->
   parse_record V2 spec_q (String c2 "") (layout V2) (render_record V2 r) = RRec (prec_of V2 (String c2 "") r).
 Proof.
-  destruct r as [sys prn y mo d h mi s10 nums extra].
-  unfold nrec_wf, skipped. cbn [r_sys r_prn r_year r_month r_day r_hour r_min r_sec10 r_nums r_extra is_v3].
-  intros Hwf Hsk. rewrite Hsk in Hwf. split_all.
+  destruct r as [sys prn y mo d h mi s10 nums extra yb].
+  unfold nrec_wf, skipped. cbn [r_sys r_prn r_year r_month r_day r_hour r_min r_sec10 r_nums r_extra r_yblank is_v3].
+  intros Hyb Hwf Hsk. subst yb. rewrite Hsk in Hwf. split_all.
   assert (Hextra : extra = 7) by (apply Nat.eqb_eq; assumption). subst extra.
   assert (Hlen : length nums = 29) by (apply Nat.eqb_eq; assumption).
   assert (Hprn : prn < 100) by ltb_hyp. assert (Hmo : mo < 100) by ltb_hyp. assert (Hd : d < 100) by ltb_hyp.
@@ -397,11 +398,11 @@ Proof.
   match goal with H : forallb _ _ = true |- _ => cbn [forallb] in H; fold (field_wf true) in H end.
   split_all.
   unfold parse_record, render_record.
-  cbn [r_sys r_prn r_year r_month r_day r_hour r_min r_sec10 r_nums r_extra is_v3 lead firstn skipn cont_lines].
+  cbn [r_sys r_prn r_year r_month r_day r_hour r_min r_sec10 r_nums r_extra r_yblank is_v3 lead firstn skipn cont_lines].
   change (tlookup 1 (layout V2)) with (Some (epoch_defs V2 ++ layout_fields clock_names 22 false)%list).
   cbv beta iota. rewrite map_cut_rstrip.
   set (E := epoch_text V2 (mkN sys prn y mo d h mi s10
-     [o; o0; o1; o2; o3; o4; o5; o6; o7; o8; o9; o10; o11; o12; o13; o14; o15; o16; o17; o18; o19; o20; o21; o22; o23; o24; o25; o26; o27] 7)).
+     [o; o0; o1; o2; o3; o4; o5; o6; o7; o8; o9; o10; o11; o12; o13; o14; o15; o16; o17; o18; o19; o20; o21; o22; o23; o24; o25; o26; o27] 7 false)).
   assert (F0 : field_wf true o = true) by assumption.
   assert (F1 : field_wf true o0 = true) by assumption.
   assert (F2 : field_wf true o1 = true) by assumption.
@@ -441,7 +442,7 @@ Proof.
   destruct (parse_float false (strip (f51 s10))) as [sd|] eqn:ES; [|discriminate].
   apply dec_eqb_eq in S3. subst sd.
   assert (Hyin : In y (seq 1980 100)) by (apply in_seq; lia).
-  pose proof (proj1 (forallb_forall _ _) year2_ok_all y Hyin) as Y2. unfold year2_ok in Y2.
+  pose proof (proj1 (forallb_forall _ _) year2_ok_all y Hyin) as Y2. unfold year2_ok in Y2. apply andb_prop in Y2. destruct Y2 as [Y2z Y2b]. clear Y2b. rename Y2z into Y2. unfold year2_txt_ok in Y2.
   destruct (parse_int (strip (String " " (two (y mod 100))))) as [yy|] eqn:EYY; [|discriminate].
   destruct (parse_int ((if ((80 <=? yy)%Z && (yy <=? 99)%Z) then "19" else "20")
                          ++ zfill 2 (strip (String " " (two (y mod 100)))))) as [yz|] eqn:EY; [|discriminate].
@@ -473,6 +474,106 @@ Proof.
   rewrite P0. reflexivity.
 Qed.
 
+Lemma record_rt_v2_b r c2 :
+  r_yblank r = true -> nrec_wf V2 true r = true -> skipped r = false ->
+  parse_record V2 spec_q (String c2 "") (layout V2) (render_record V2 r) = RRec (prec_of V2 (String c2 "") r).
+Proof.
+  destruct r as [sys prn y mo d h mi s10 nums extra yb].
+  unfold nrec_wf, skipped. cbn [r_sys r_prn r_year r_month r_day r_hour r_min r_sec10 r_nums r_extra r_yblank is_v3].
+  intros Hyb Hwf Hsk. subst yb. rewrite Hsk in Hwf. split_all.
+  assert (Hextra : extra = 7) by (apply Nat.eqb_eq; assumption). subst extra.
+  assert (Hlen : length nums = 29) by (apply Nat.eqb_eq; assumption).
+  assert (Hprn : prn < 100) by ltb_hyp. assert (Hmo : mo < 100) by ltb_hyp. assert (Hd : d < 100) by ltb_hyp.
+  assert (Hh : h < 100) by ltb_hyp. assert (Hmi : mi < 100) by ltb_hyp. assert (Hs : s10 < 1000) by ltb_hyp.
+  assert (Hy1 : 1980 <= y) by (apply Nat.leb_le; assumption).
+  assert (Hy2 : y < 2080) by ltb_hyp.
+  destr_nums29 Hlen nums.
+  match goal with H : forallb _ _ = true |- _ => cbn [forallb] in H; fold (field_wf true) in H end.
+  split_all.
+  unfold parse_record, render_record.
+  cbn [r_sys r_prn r_year r_month r_day r_hour r_min r_sec10 r_nums r_extra r_yblank is_v3 lead firstn skipn cont_lines].
+  change (tlookup 1 (layout V2)) with (Some (epoch_defs V2 ++ layout_fields clock_names 22 false)%list).
+  cbv beta iota. rewrite map_cut_rstrip.
+  set (E := epoch_text V2 (mkN sys prn y mo d h mi s10
+     [o; o0; o1; o2; o3; o4; o5; o6; o7; o8; o9; o10; o11; o12; o13; o14; o15; o16; o17; o18; o19; o20; o21; o22; o23; o24; o25; o26; o27] 7 true)).
+  assert (F0 : field_wf true o = true) by assumption.
+  assert (F1 : field_wf true o0 = true) by assumption.
+  assert (F2 : field_wf true o1 = true) by assumption.
+  pose proof (len_render_field true o F0) as L0.
+  pose proof (len_render_field true o0 F1) as L1.
+  pose proof (len_render_field true o1 F2) as L2.
+  assert (LE : len E = 22) by reflexivity.
+  assert (Hcl : floats true [("sat_clock_bias", strip (slice 22 41 (E ++ cat (map render_field [o; o0; o1]))));
+                             ("sat_clock_drift", strip (slice 41 60 (E ++ cat (map render_field [o; o0; o1]))));
+                             ("sat_clock_drift_rate", strip (slice 60 79 (E ++ cat (map render_field [o; o0; o1]))))]
+                = Some (combine clock_names (map num_val [o; o0; o1]))).
+  { refine (floats_fields true clock_names [o; o0; o1] E false eq_refl _ _).
+    - cbn [forallb]. rewrite F0, F1, F2. reflexivity.
+    - discriminate. }
+  assert (Hrt : slice 60 79 (E ++ cat (map render_field [o; o0; o1])) = render_field o1).
+  { cbn [map cat]. exact (slice_fourth E _ _ _ _ 19 L0 L1 L2). }
+  assert (Hkv : map (cut (E ++ cat (map render_field [o; o0; o1]))) (epoch_defs V2 ++ layout_fields clock_names 22 false)
+          = [("sat", strip (pad2 prn)); ("year", strip (String " " (pad2 (y mod 100))));
+             ("month", strip (String " " (pad2 mo))); ("day", strip (String " " (pad2 d)));
+             ("hour", strip (String " " (pad2 h))); ("minute", strip (String " " (pad2 mi)));
+             ("second", strip (f51 s10));
+             ("sat_clock_bias", strip (slice 22 41 (E ++ cat (map render_field [o; o0; o1]))));
+             ("sat_clock_drift", strip (slice 41 60 (E ++ cat (map render_field [o; o0; o1]))));
+             ("sat_clock_drift_rate", strip (slice 60 79 (E ++ cat (map render_field [o; o0; o1]))))]).
+  { unfold cut. cbn [map epoch_defs is_v3 app fst snd layout_fields clock_names fw Nat.add].
+    rewrite !(slice_app_left _ _ E) by (rewrite LE; repeat constructor).
+    reflexivity. }
+  rewrite Hkv. unfold parse_epoch. cbn [is_v3].
+  pose proof (below_spec _ _ pad2_ok_all prn Hprn) as P0. unfold pad2_ok in P0.
+  apply andb_prop in P0. destruct P0 as [P0 _]. apply String.eqb_eq in P0.
+  assert (PI : forall n, n < 100 -> parse_int (strip (String " " (pad2 n))) = Some (Z.of_nat n)).
+  { intros n Hn. pose proof (below_spec _ _ pad2_ok_all n Hn) as Q. unfold pad2_ok in Q.
+    apply andb_prop in Q. destruct Q as [_ Q].
+    destruct (parse_int (strip (String " " (pad2 n)))); [|discriminate]. apply Z.eqb_eq in Q. subst. reflexivity. }
+  pose proof (below_spec _ _ f51_ok_all s10 Hs) as S3. unfold f51_ok in S3.
+  apply andb_prop in S3. destruct S3 as [_ S3].
+  destruct (parse_float false (strip (f51 s10))) as [sd|] eqn:ES; [|discriminate].
+  apply dec_eqb_eq in S3. subst sd.
+  assert (Hyin : In y (seq 1980 100)) by (apply in_seq; lia).
+  pose proof (proj1 (forallb_forall _ _) year2_ok_all y Hyin) as Y2. unfold year2_ok in Y2. apply andb_prop in Y2. destruct Y2 as [Y2z Y2b]. clear Y2z. rename Y2b into Y2. unfold year2_txt_ok in Y2.
+  destruct (parse_int (strip (String " " (pad2 (y mod 100))))) as [yy|] eqn:EYY; [|discriminate].
+  destruct (parse_int ((if ((80 <=? yy)%Z && (yy <=? 99)%Z) then "19" else "20")
+                         ++ zfill 2 (strip (String " " (pad2 (y mod 100)))))) as [yz|] eqn:EY; [|discriminate].
+  apply Z.eqb_eq in Y2. subst yz.
+  rewrite (parse_epoch2_kv (String c2 "") (strip (pad2 prn)) (strip (String " " (pad2 (y mod 100))))
+             (strip (String " " (pad2 mo))) (strip (String " " (pad2 d))) (strip (String " " (pad2 h)))
+             (strip (String " " (pad2 mi))) (strip (f51 s10)) _ _ _
+             yy (Z.of_nat y) (Z.of_nat mo) (Z.of_nat d) (Z.of_nat h) (Z.of_nat mi) (Z.of_nat s10, (-1)%Z)
+             (combine clock_names (map num_val [o; o0; o1]))).
+  2:{ rewrite Hrt. apply (early_exit_first true). exact F2. }
+  2:{ exact EYY. }
+  2:{ exact EY. }
+  2:{ apply PI. exact Hmo. }
+  2:{ apply PI. exact Hd. }
+  2:{ apply PI. exact Hh. }
+  2:{ apply PI. exact Hmi. }
+  2:{ exact ES. }
+  2:{ exact Hcl. }
+  cbn [q_lower_d spec_q negb].
+  erewrite (obs_step true V2 (layout V2) 2 _ _ _ ["iode"; "crs"; "delta_n"; "m0"] [o2; o3; o4; o5]); [|reflexivity|reflexivity|reflexivity|wf_list]; cbn [p_sys p_sat p_civil p_sec p_vals app].
+  erewrite (obs_step true V2 (layout V2) 3 _ _ _ ["cuc"; "e"; "cus"; "sqrt_a"] [o6; o7; o8; o9]); [|reflexivity|reflexivity|reflexivity|wf_list]; cbn [p_sys p_sat p_civil p_sec p_vals app].
+  erewrite (obs_step true V2 (layout V2) 4 _ _ _ ["toe"; "cic"; "Omega"; "cis"] [o10; o11; o12; o13]); [|reflexivity|reflexivity|reflexivity|wf_list]; cbn [p_sys p_sat p_civil p_sec p_vals app].
+  erewrite (obs_step true V2 (layout V2) 5 _ _ _ ["i0"; "crc"; "omega"; "Omega_dot"] [o14; o15; o16; o17]); [|reflexivity|reflexivity|reflexivity|wf_list]; cbn [p_sys p_sat p_civil p_sec p_vals app].
+  erewrite (obs_step true V2 (layout V2) 6 _ _ _ ["idot"; "gnss_data_info"; "gnss_week"; "gnss_l2p_flag"] [o18; o19; o20; o21]); [|reflexivity|reflexivity|reflexivity|wf_list]; cbn [p_sys p_sat p_civil p_sec p_vals app].
+  erewrite (obs_step true V2 (layout V2) 7 _ _ _ ["sv_accuracy"; "sv_health"; "gnss_tgd_bgd"; "gnss_iodc_groupdelay"] [o22; o23; o24; o25]); [|reflexivity|reflexivity|reflexivity|wf_list]; cbn [p_sys p_sat p_civil p_sec p_vals app].
+  erewrite (obs_step true V2 (layout V2) 8 _ _ _ ["transmission_time"; "gnss_interval"] [o26; o27]); [|reflexivity|reflexivity|reflexivity|wf_list]; cbn [p_sys p_sat p_civil p_sec p_vals app].
+  cbn [obs_lines p_sys p_sat p_civil p_sec p_vals].
+  unfold prec_of. cbn [is_v3 r_sys r_prn r_year r_month r_day r_hour r_min r_sec10 r_nums].
+  rewrite P0. reflexivity.
+Qed.
+
+Lemma record_rt_v2 r c2 :
+  nrec_wf V2 true r = true -> skipped r = false ->
+  parse_record V2 spec_q (String c2 "") (layout V2) (render_record V2 r) = RRec (prec_of V2 (String c2 "") r).
+Proof.
+  destruct (r_yblank r) eqn:E; [apply record_rt_v2_b|apply record_rt_v2_z]; exact E.
+Qed.
+
 Lemma record_rt_v212 r c2 :
   nrec_wf V212 true r = true -> skipped r = false ->
   parse_record V212 spec_q (String c2 "") (layout V212) (render_record V212 r) = RRec (prec_of V212 (String c2 "") r).
@@ -483,8 +584,8 @@ Lemma record_skip_v3 r sys2 :
   nrec_wf V3 true r = true -> skipped r = true ->
   parse_record V3 spec_q sys2 (layout V3) (render_record V3 r) = RSkip.
 Proof.
-  destruct r as [sys prn y mo d h mi s10 nums extra].
-  unfold nrec_wf, skipped. cbn [r_sys r_prn r_year r_month r_day r_hour r_min r_sec10 r_nums r_extra is_v3].
+  destruct r as [sys prn y mo d h mi s10 nums extra yb].
+  unfold nrec_wf, skipped. cbn [r_sys r_prn r_year r_month r_day r_hour r_min r_sec10 r_nums r_extra r_yblank is_v3].
   intros Hwf Hsk. rewrite Hsk in Hwf. split_all.
   assert (Hextra : extra = 3) by (apply Nat.eqb_eq; assumption). subst extra.
   assert (Hlen : length nums = 15) by (apply Nat.eqb_eq; assumption).
@@ -494,11 +595,11 @@ Proof.
   match goal with H : forallb _ _ = true |- _ => cbn [forallb] in H; fold (field_wf true) in H end.
   split_all.
   unfold parse_record, render_record.
-  cbn [r_sys r_prn r_year r_month r_day r_hour r_min r_sec10 r_nums r_extra is_v3 lead firstn skipn cont_lines].
+  cbn [r_sys r_prn r_year r_month r_day r_hour r_min r_sec10 r_nums r_extra r_yblank is_v3 lead firstn skipn cont_lines].
   change (tlookup 1 (layout V3)) with (Some (epoch_defs V3 ++ layout_fields clock_names 23 false)%list).
   cbv beta iota. rewrite map_cut_rstrip.
   set (E := epoch_text V3 (mkN (String c "") prn y mo d h mi s10
-     [o; o0; o1; o2; o3; o4; o5; o6; o7; o8; o9; o10; o11; o12; o13] 3)).
+     [o; o0; o1; o2; o3; o4; o5; o6; o7; o8; o9; o10; o11; o12; o13] 3 yb)).
   assert (F0 : field_wf true o = true) by assumption.
   assert (F1 : field_wf true o0 = true) by assumption.
   pose proof (len_render_field true o F0) as L0.
@@ -874,8 +975,8 @@ Proof. exact (file_rt_v2 rs c2). Qed.
 (* non-vacuity: a well-formed record and file *)
 Definition ex_num : num := mkNum true "0" "596000000000" "D" true "01".
 Definition ex_rec (s : string) : nrec :=
-  if mem s ["R"; "S"] then mkN s 7 2016 2 28 0 15 0 (repeat (Some ex_num) 15) 3
-  else mkN s 11 2016 2 28 22 0 0 (repeat (Some ex_num) 12 ++ [None] ++ repeat (Some ex_num) 16) 7.
+  if mem s ["R"; "S"] then mkN s 7 2016 2 28 0 15 0 (repeat (Some ex_num) 15) 3 false
+  else mkN s 11 2016 2 28 22 0 0 (repeat (Some ex_num) 12 ++ [None] ++ repeat (Some ex_num) 16) 7 true.
 Lemma ex_wf : forallb (fun s => nrec_wf V3 true (ex_rec s)) ["G"; "R"; "E"; "S"; "C"; "J"; "I"] = true
               /\ nrec_wf V2 true (ex_rec "G") = true.
 Proof. vm_compute. auto. Qed.
